@@ -81,6 +81,7 @@ pub fn overlay(v: &Value) -> Value {
             committer_time: 0,
             committer_tz: "+0000".into(),
             is_boundary: false,
+            orig_path: h["orig_path"].as_str().map(|s| s.to_string()),
         });
     }
     let mut options = GitAiBlameOptions::default();
@@ -129,7 +130,7 @@ pub fn porcelain(v: &Value) -> Value {
         Ok(hunks) => {
             let out: Vec<Value> = hunks
                 .iter()
-                .map(|h| json!({"range": [h.range.0, h.range.1], "orig": [h.orig_range.0, h.orig_range.1], "sha": h.commit_sha}))
+                .map(|h| json!({"range": [h.range.0, h.range.1], "orig": [h.orig_range.0, h.orig_range.1], "sha": h.commit_sha, "orig_path": h.orig_path}))
                 .collect();
             json!({"ok": true, "hunks": out})
         }
